@@ -425,6 +425,26 @@ func skeletons(g *gen) (string, map[string][]string) {
 	emitList("stmts_SetPongHandler", "top-level statements of Conn.SetPongHandler", stmtsOf("Conn.SetPongHandler"))
 	emitList("stmts_FormatCloseMessage", "top-level statements of FormatCloseMessage", stmtsOf("FormatCloseMessage"))
 	emitList("stmts_httpProxyDial", "top-level statements of httpProxyDialer.DialContext", stmtsOf("httpProxyDialer.DialContext"))
+	emitList("stmts_connRead", "top-level statements of Conn.read", stmtsOf("Conn.read"))
+	emitList("stmts_joinRead", "top-level statements of joinReader.Read", stmtsOf("joinReader.Read"))
+	emitList("stmts_JoinMessages", "top-level statements of JoinMessages", stmtsOf("JoinMessages"))
+	emitList("stmts_Subprotocols", "top-level statements of Subprotocols", stmtsOf("Subprotocols"))
+	emitList("stmts_NewPreparedMessage", "top-level statements of NewPreparedMessage", stmtsOf("NewPreparedMessage"))
+	emitList("stmts_decompressNCT", "top-level statements of decompressNoContextTakeover", stmtsOf("decompressNoContextTakeover"))
+	emitList("stmts_compressNCT", "top-level statements of compressNoContextTakeover", stmtsOf("compressNoContextTakeover"))
+	emitList("stmts_isValidCompressionLevel", "top-level statements of isValidCompressionLevel", stmtsOf("isValidCompressionLevel"))
+	emitList("stmts_SetCompressionLevel", "top-level statements of Conn.SetCompressionLevel", stmtsOf("Conn.SetCompressionLevel"))
+	emitList("stmts_EnableWriteCompression", "top-level statements of Conn.EnableWriteCompression", stmtsOf("Conn.EnableWriteCompression"))
+	emitList("stmts_connClose", "top-level statements of Conn.Close", stmtsOf("Conn.Close"))
+	emitList("stmts_newMaskKey", "top-level statements of newMaskKey", stmtsOf("newMaskKey"))
+	emitList("stmts_isControl", "top-level statements of isControl", stmtsOf("isControl"))
+	emitList("stmts_isData", "top-level statements of isData", stmtsOf("isData"))
+	emitList("stmts_returnError", "top-level statements of Upgrader.returnError", stmtsOf("Upgrader.returnError"))
+	emitList("stmts_generateChallengeKey", "top-level statements of generateChallengeKey", stmtsOf("generateChallengeKey"))
+	emitList("stmts_WriteJSON", "top-level statements of Conn.WriteJSON", stmtsOf("Conn.WriteJSON"))
+	emitList("stmts_ReadJSON", "top-level statements of Conn.ReadJSON", stmtsOf("Conn.ReadJSON"))
+	emitList("stmts_SetWriteDeadline", "top-level statements of Conn.SetWriteDeadline", stmtsOf("Conn.SetWriteDeadline"))
+	emitList("stmts_IsWebSocketUpgrade", "top-level statements of IsWebSocketUpgrade", stmtsOf("IsWebSocketUpgrade"))
 
 	// Upgrade's validation chain: (condition, status) of every `return u.returnError(w, r, <status>, …)`
 	var chain []string
